@@ -119,6 +119,12 @@ func genC12(seed uint64, run int, tier string) Scenario {
 				rep := &peer.Reply{}
 				pre, _ := g.out(2)
 				rep.Out = pre
+				if e >= 2 && r.IntN(2) == 0 && len(op.Marks) >= 2 && op.Events[e-2].Response != "" {
+					// the device mentions an earlier question again, pauses, and only then shows
+					// what this event is waiting for
+					rep.Out = append([]peer.Tok{{S: "(re: " + op.Marks[e-2] + ")"}, {S: g.nl}}, rep.Out...)
+					rep.Out = append(rep.Out, peer.Tok{S: g.nl, Delay: Micro(sc.ReadDelayUS * int64(between(r, 5, 40)))})
+				}
 				if last {
 					rep.Next = "exec"
 					op.Marks = append(op.Marks, strings.TrimRight(exec.Prompt, " "))
